@@ -684,6 +684,9 @@ func buildForged(f *forgeSpec) string {
 	return h + "." + c + "." + s
 }
 
+// what unicode.IsSpace (strings.TrimSpace) takes for white space, and a two-character run
+var whitespace = []string{" ", "\t", "\r", "\n", "\v", "\f", "\u0085", "\u00a0", "\u2028", "\u2029", "\u3000", " \r\n"}
+
 const b64alphabet = "ABCDEFGHIJKLMNOPQRSTUVWXYZabcdefghijklmnopqrstuvwxyz0123456789-_"
 
 func mutate(tok string, m *mutSpec) string {
@@ -757,6 +760,15 @@ func mutate(tok string, m *mutSpec) string {
 		if len(segs) == 3 {
 			return b64([]byte(`{"alg":"none","typ":"JWT"}`)) + "." + segs[1] + "."
 		}
+	case "padends": // Pos: 0 in front, 1 behind, 2 both; Arg: which whitespace character
+		w := whitespace[m.Arg%len(whitespace)]
+		switch m.Pos % 3 {
+		case 0:
+			return w + tok
+		case 1:
+			return tok + w
+		}
+		return w + tok + w
 	case "pad":
 		return tok + "="
 	}
@@ -909,7 +921,7 @@ func run(cs *caseSpec) (coq string, tags []string, key string, nontrivial bool, 
 	o2 := observe(func(p any) (istructs.GenericPayload, error) { return appTokens.ValidateToken(tok, p) }, cs.Val.PType)
 	auth := "None"
 	authDesc := "skipped"
-	if cs.Val.PType == "principal" && tok != "" {
+	if cs.Val.PType == "principal" {
 		// Authenticate reaches IAppStructs only for accepted non-API tokens with a profile workspace; those are skipped
 		safe := o2.code != "ok"
 		if pp, ok := o2.pl.(*payloads.PrincipalPayload); ok && o2.code == "ok" {
@@ -924,12 +936,18 @@ func run(cs *caseSpec) (coq string, tags []string, key string, nontrivial bool, 
 						authDesc = "panic: " + fmt.Sprint(r)
 					}
 				}()
-				_, _, aerr := authenticator.Authenticate(context.Background(), nil, appTokens, iauthnz.AuthnRequest{Host: "h", RequestWSID: 1, Token: tok})
+				prns, _, aerr := authenticator.Authenticate(context.Background(), nil, appTokens, iauthnz.AuthnRequest{Host: "h", RequestWSID: 1, Token: tok})
 				if aerr != nil {
 					code = 1
 					authDesc = "error: " + aerr.Error()
 				} else {
-					authDesc = "accepted"
+					authDesc = "accepted with the principals of a token"
+					for _, p := range prns {
+						if p.Kind == iauthnz.PrincipalKind_User && p.WSID == istructs.GuestWSID && p.Name == istructs.SysGuestLogin {
+							code = 3 // no token: the guest principals
+							authDesc = "accepted as sys.Guest"
+						}
+					}
 				}
 			}()
 			auth = fmt.Sprintf("(Some %d)", code)
@@ -938,7 +956,7 @@ func run(cs *caseSpec) (coq string, tags []string, key string, nontrivial bool, 
 	}
 	cs.Obs = map[string]any{"itokens": o1.desc(), "iapptokens": o2.desc(), "authenticate": authDesc}
 
-	coq = fmt.Sprintf("TVal (mkTrace %s %s %s %s %s %s %s %s %s %s)", kit.Bytes(valKey), kit.Bytes(callerBuf), zc(nowAbs), bs(audOf(cs.Val.PType)), bs(cs.Val.App), v.coq(), origin, o1.coq(), o2.coq(), auth)
+	coq = fmt.Sprintf("TVal (mkTrace %s %s %s %s %s %s %s %s %s %s %s)", kit.Bytes(valKey), kit.Bytes(callerBuf), kit.Bool(tok == ""), zc(nowAbs), bs(audOf(cs.Val.PType)), bs(cs.Val.App), v.coq(), origin, o1.coq(), o2.coq(), auth)
 
 	tagset["tok:"+o1.tag()] = true
 	tagset["apptok:"+o2.tag()] = true
@@ -969,6 +987,15 @@ func run(cs *caseSpec) (coq string, tags []string, key string, nontrivial bool, 
 		if cs.Issue.PType == cs.Val.PType && (o1.kind == "EDecode" || o2.kind == "EDecode") {
 			tagset["issued-integer-above-2^53:token-not-decodable"] = true
 		}
+	}
+	if cs.Val.PType == "principal" && tok != "" && strings.TrimSpace(tok) == "" {
+		tagset["token:whitespace-only"] = true
+	}
+	if tok == "" {
+		tagset["token:empty"] = true
+	}
+	if (strings.HasPrefix(auth, "(Some 0") && o2.code != "ok") || (strings.HasPrefix(auth, "(Some 3") && tok != "") {
+		tagset["authenticated-although-the-validator-refuses"] = true
 	}
 	anyPanic := o1.code == "panic" || o2.code == "panic" || strings.HasPrefix(authDesc, "panic")
 	if anyPanic {
